@@ -610,6 +610,52 @@ def run(prog, rep, tier):
     if n1613 < 1:
         raise CheckerError("R16.13: process_path_tar does not call the classifier")
 
+    # ------------------------------------------------------------ R16.14 a length guard on member names admits every path a file system admits
+    # "for every name": a member whose path could exist on disk (up to PATH_MAX-1 = 4095 bytes) must reach
+    # the classifier like the same file outside the archive does.  process_path_tar compares the length
+    # of the *whole* member path (directories included) with a constant before classifying (the guard
+    # of fix 1d4ecfcc against unbounded recursion); any such constant comparison must admit 4095 bytes.
+    # A lower bound, not a frozen value: raising the limit or removing the guard passes.
+    R1614 = rep.rule("R16.14", "a constant length limit on tar member paths admits every path of up to PATH_MAX-1 bytes")
+    PATH_ADMIT = 4095
+    n1614 = 0
+    for bb in range(tb16.n):
+        for st_ in tb16.stmts(bb):
+            if st_[0] != "=" or st_[2][0] != "bin" or st_[2][1] not in ("Lt", "Le", "Gt", "Ge"):
+                continue
+            opn, a_, b_ = st_[2][1], st_[2][2], st_[2][3]
+            kside = [x for x in (a_, b_) if const_of(tb16, x) is not None and isinstance(const_of(tb16, x), int) and not isinstance(const_of(tb16, x), bool)]
+            vside = [x for x in (a_, b_) if x not in kside]
+            if len(kside) != 1 or not vside:
+                continue
+            vo = tb16.origins(vside[0])
+            if not any(y[0] == "call" and y[2].split("::")[-1] == "len" for y in vo):
+                continue
+            # only lengths of the member path: the len() receiver derives from the tar entry
+            lens = [c for c in tb16.live_calls() if c.d.split("::")[-1] == "len" and c.args and
+                    any(x_[0] == "call" and x_[2].startswith("tar::") for x_ in tb16.origins(c.args[0], through_calls=TH16))]
+            if not any(y[0] == "call" and any(y[1] == c.bb for c in lens) for y in vo):
+                continue
+            k_ = const_of(tb16, kside[0])
+            k_left = kside[0] is a_
+            # largest length for which the comparison still takes the side of small values
+            if (opn == "Gt" and not k_left) or (opn == "Lt" and k_left):
+                admit = k_
+            elif (opn == "Ge" and not k_left) or (opn == "Le" and k_left):
+                admit = k_ - 1
+            elif (opn == "Lt" and not k_left) or (opn == "Gt" and k_left):
+                admit = k_ - 1
+            else:
+                admit = k_
+            n1614 += 1
+            rep.examined(R1614, tb16.path + "|member-path-length-limit@%d" % n1614, sample={"line": st_[3], "comparison": opn, "constant": k_, "admits_up_to": admit})
+            if admit < PATH_ADMIT:
+                rep.violation(R1614, tb16.path + "|member-path-length-limit|below-PATH_MAX", "process_path_tar (line %s) compares the length of the whole tar member path with %d: members at a path longer than %d bytes "
+                              "(ordinary names like app.log or wtmp below deep directories; GNU long-name and pax headers carry them) are never classified, while the same file on disk (paths up to %d bytes) is - "
+                              "the reader no longer depends on the name alone" % (st_[3], k_, admit, PATH_ADMIT))
+    if n1614 == 0:
+        rep.examined(R1614, tb16.path + "|member-path-length-limit@none", sample={"note": "no constant length comparison on the member path: nothing limits the names that reach the classifier"})
+
     # ------------------------------------------------------------ R16.11 each compression suffix records its own container (path-sensitive)
     # For every documented compression suffix the function strips the suffix and calls itself with the
     # container that suffix names.  Decided by walking the CFG with the string comparisons of the suffix
